@@ -86,6 +86,7 @@ type VerifC18Obs struct {
 	Deps    []VerifC18Dep     `json:"deps"`  // the dependency list MultiSource ended up with (explicit + implicit, deduped)
 	Lens    [][]int           `json:"lens"`  // per op: change-feed length of every dataset after the op
 	Core    []int             `json:"core"`  // per op: change-feed length of core.Dataset after the op
+	Core0   int               `json:"core0"` // ... before the first op
 	Runs    [][]VerifC18RunObs `json:"runs"` // per run op: the runs it performed
 	Feeds   [][]VerifC18Ver   `json:"feeds"` // final change feeds
 	Detail  string            `json:"detail,omitempty"`
@@ -265,6 +266,12 @@ func VerifC18Run(c VerifC18Case, dir string) (obs VerifC18Obs) {
 	}
 	if _, err := env.dsm.CreateDataset("sink", nil); err != nil {
 		return fail("create", err)
+	}
+
+	if n0, err := verifC18Len(env.dsm.GetDataset("core.Dataset")); err == nil {
+		obs.Core0 = n0
+	} else {
+		return fail("len", err)
 	}
 
 	// job configuration
